@@ -669,8 +669,12 @@ class Ctx:
 
 
 def run_real(X, texts, mode, plain=False):
+    """the harness forks one child per input; a child that does not terminate (a broken hide flag makes
+    expansion endless) is ended by its CPU limit and reported as a death of the preprocessor"""
     lines = ["%s %s" % (mode, hx(t)) for t in texts]
-    out = lexgen.run_sharded([X.harness_plain if plain else X.harness], lines, env=ASAN_ENV)
+    limit = "ulimit -t 10; ulimit -v 3000000; " if plain else "ulimit -t 20; "
+    cmd = ["/bin/sh", "-c", limit + 'exec "$0"', X.harness_plain if plain else X.harness]
+    out = lexgen.run_sharded(cmd, lines, env=ASAN_ENV)
     return [parse_real(l) for l in out]
 
 
@@ -1147,36 +1151,38 @@ def run(ck):
         validate_spec(X, corpus, "corpus")
 
     # 2. main stream
-    n_main = 1500 if quick else 14000
+    n_main = 1000 if quick else 12000
     cfg = Cfg()
     main = [gen_case(rng, cfg, H) for _ in range(n_main)]
     for k in range(0, len(main), 4000):
         if ck.violations:
             break
-        examine(X, main[k:k + 4000], "macro-sets", asan=300 if quick else 1500)
+        examine(X, main[k:k + 4000], "macro-sets", asan=200 if quick else 1000)
     ck.sample({"macro set": main[3][:600]})
     # 3. redefinitions
     if not ck.violations:
-        red = [gen_redef(rng, H) for _ in range(300 if quick else 2500)]
-        examine(X, [t for t, _ in red], "redefinitions")
+        red = [gen_redef(rng, H) for _ in range(200 if quick else 2500)]
+        examine(X, [t for t, _ in red], "redefinitions", asan=60 if quick else 500)
         ck.sample({"redefinition": red[0][0]})
     # 4. diagnostics
     if not ck.violations:
         errs = [gen_error(rng, H) for _ in range(200 if quick else 1200)]
         examine(X, sorted(set(t for t, _ in errs)), "diagnostics")
         cfg_e = Cfg(errors=0.2)
-        examine(X, [gen_case(rng, cfg_e, H) for _ in range(200 if quick else 1500)], "macro-sets-with-wrong-argument-counts")
+        examine(X, [gen_case(rng, cfg_e, H) for _ in range(120 if quick else 1500)], "macro-sets-with-wrong-argument-counts",
+                asan=60 if quick else 500)
     # 5. known findings, on purpose
     if not ck.violations:
         for fid, ts in KNOWN_STREAM.items():
             examine(X, ts, "known:" + fid, expect=[fid])
         cfg_k = Cfg(str_and_tok=True, unbalanced=True)
-        examine(X, [gen_case(rng, cfg_k, H) for _ in range(150 if quick else 1500)], "macro-sets-unrestricted")
+        examine(X, [gen_case(rng, cfg_k, H) for _ in range(100 if quick else 1500)], "macro-sets-unrestricted",
+                asan=60 if quick else 500)
     # 6. valid programs: K-A and K-B
     progs = []
     if not ck.violations:
-        progs = [gen_program(rng, H) for _ in range(150 if quick else 1200)]
-        examine(X, progs, "valid-programs")
+        progs = [gen_program(rng, H) for _ in range(100 if quick else 1200)]
+        examine(X, progs, "valid-programs", asan=50 if quick else 300)
         ck.sample({"valid program": progs[0][:900]})
     if not ck.violations:
         import time
@@ -1185,7 +1191,7 @@ def run(ck):
         X.secs["K-B"] = round(time.time() - t0, 1)
     # 7. the reference itself against gcc and clang
     if not ck.violations:
-        vt = main[:500 if quick else 4000] + [t for t, _ in (red[:150 if quick else 800])] + \
+        vt = main[:400 if quick else 4000] + [t for t, _ in (red[:100 if quick else 800])] + \
             sorted(set(t for t, _ in errs)) + progs[:60 if quick else 300]
         t0 = time.time()
         validate_spec(X, vt, "gen")
